@@ -27,9 +27,10 @@ struct Job {
 };
 struct RoundSpec {
   std::vector<std::vector<Job>> threads;
+  int32_t repeat = 1;  // "hot" rounds: every thread repeats its (small) jobs this many times
   template <class A>
   void io(A &a) {
-    a(threads);
+    a(threads); a(repeat);
   }
 };
 
@@ -95,7 +96,16 @@ static std::string run_round(const RoundSpec &r, bool *nontriv) {
         cv.wait(lk, [&] { return go; });
       }
       try {
-        for (auto &j : r.threads[t]) got[t].push_back(run_job(j));
+        for (int rep = 0; rep < std::max(1, r.repeat); ++rep) {
+          for (size_t k = 0; k < r.threads[t].size(); ++k) {
+            std::string res = run_job(r.threads[t][k]);
+            if (rep == 0) {
+              got[t].push_back(res);
+            } else if (res != got[t][k] && got[t][k] == want[t][k]) {
+              got[t][k] = res;  // keep the first deviating repetition
+            }
+          }
+        }
       } catch (const std::exception &e) {
         errors[t] = std::string("exception in thread: ") + e.what();
       }
@@ -120,17 +130,42 @@ static std::string run_round(const RoundSpec &r, bool *nontriv) {
   }
   for (auto &kv : kinds) *nontriv |= kv.second >= 2;
   count("threads_" + std::to_string(n));
+  if (r.repeat > 1) count("hot_rounds");
   return "";
 }
 
 static RoundSpec gen_round(std::vector<std::string> *classes) {
   RoundSpec r;
-  const int n = pick({2, 2, 4, 4, 8, 16});
   GenCfg cfg;
   cfg.thorough = g_thorough;
   cfg.allow_large = false;
   cfg.allow_lattice = false;
   cfg.max_extra_atts = 2;
+  if (P(35)) {
+    // Hot round: many threads, each repeating one or two *small* encode/decode jobs a few hundred times. Ordinary
+    // rounds spend their time inside long encode bodies; the short shared paths (option parsing and lookup, factory
+    // and set-up code, anything that might keep state in a library or libc static) overlap only when they are
+    // executed very often at the same time.
+    const int n = pick({4, 8, 8, 16});
+    r.repeat = g_thorough ? 600 : 200;
+    for (int t = 0; t < n; ++t) {
+      std::vector<Job> jobs;
+      const int nj = R(1, 2);
+      for (int k = 0; k < nj; ++k) {
+        Job j;
+        for (int tries = 0; tries < 8; ++tries) {
+          j.cs = gen_case(cfg, classes);
+          if (j.cs.g.npoints <= 40) break;
+        }
+        if (j.cs.g.npoints > 40) continue;
+        j.kind = P(75) ? 0 : 1;
+        jobs.push_back(j);
+      }
+      r.threads.push_back(jobs);
+    }
+    return r;
+  }
+  const int n = pick({2, 2, 4, 4, 8, 16});
   for (int t = 0; t < n; ++t) {
     std::vector<Job> jobs;
     const int nj = R(3, g_thorough ? 10 : 6);
@@ -194,7 +229,8 @@ int main(int argc, char **argv) {
   g_thorough = std::string(env("VERIF_TIER", "quick")) == "thorough";
   stats().rule =
       "rounds of N in {2,4,8,16} threads released together, each running 3..6 (thorough 10) generated jobs (encode + decode, "
-      "decode with skipped transforms, OBJ and PLY buffer round trips) on its own objects; oracle: ThreadSanitizer / ASan "
+      "decode with skipped transforms, OBJ and PLY buffer round trips) on its own objects; a third of the rounds are hot rounds "
+      "(4..16 threads each repeating one or two jobs on geometries of <= 40 points 200 (thorough 600) times); oracle: ThreadSanitizer / ASan "
       "report nothing and every job's bytes and ordered digest equal the same job run alone; non-trivial = at least two "
       "threads start with the same kind of job; distinct by round hash";
   Harness h;
